@@ -125,7 +125,7 @@ func (c *C07Scn) concurrentPhase(scn *Scenario, res *RunResult, stream []byte, e
 			if l.fault == nil && prior == "zero" {
 				prior = "fresh" // (the complete stream needs an encoder)
 			}
-			l.st, _ = priorInstance(prior, enc)
+			l.st, _ = c.homedPrior(prior, enc)
 		}
 		return ls
 	}
@@ -248,7 +248,7 @@ func (c *C07Scn) concurrentPhase(scn *Scenario, res *RunResult, stream []byte, e
 				continue
 			}
 			l := &c07Load{fault: ft, buf: b}
-			l.st, _ = priorInstance(c.Prior, enc)
+			l.st, _ = c.homedPrior(c.Prior, enc)
 			_, capped := withStepCap(lcap, func() {
 				l.err, l.pan = loadVia(l.st, entryOf(i), l.buf)
 				if l.pan == "" {
